@@ -289,6 +289,11 @@ class _Real(_World):
         class L(pubsub.EventListener):
             def __init__(self, idx):
                 self.idx = idx
+                self.collected = []
+
+            def __len__(self):
+                # every second listener is a 'collecting' listener that is still empty: a falsy object
+                return 0 if self.idx % 2 else 1
 
             def notify(self, event):
                 t = -1
